@@ -656,9 +656,7 @@ where
     #[inline]
     async fn read_bytes_vec(&mut self) -> Result<Vec<u8>, ThriftException> {
         let len = self.reader.read_i32_le().await? as usize;
-        // FIXME: use maybe_uninit?
-        let mut v = vec![0; len];
-        self.reader.read_exact(&mut v).await?;
+        let v = super::read_exact_bounded(&mut self.reader, len).await?;
         Ok(v)
     }
 
@@ -672,9 +670,7 @@ where
     #[inline]
     async fn read_string(&mut self) -> Result<String, ThriftException> {
         let len = self.reader.read_i32_le().await? as usize;
-        // FIXME: use maybe_uninit?
-        let mut v = vec![0; len];
-        self.reader.read_exact(&mut v).await?;
+        let v = super::read_exact_bounded(&mut self.reader, len).await?;
         Ok(unsafe { String::from_utf8_unchecked(v) })
     }
 
